@@ -20,35 +20,9 @@ impl From<RawBlockHash> for BlockHash {
 // [trusted:stand-in] MillisatoshiPerByte = u64
 type MillisatoshiPerByte = u64;
 
-// [trusted:stand-in] OutPointsCache / NextBlockHeaders: entry-API maps, outside Verus; opaque here
+// [trusted:stand-in] OutPointsCache: entry-API maps; opaque here
 struct OutPointsCache { _p: u8 }
-// ghost `offered`: how many times a batch of announced headers has been offered to it (insert_next_block_headers calls)
-// ghost `announced`: the (header, height) pairs handed to NextBlockHeaders::insert, in order
-struct NextBlockHeaders { _p: u8, offered: Ghost<nat>, announced: Ghost<Seq<(Header, Height)>> }
-impl NextBlockHeaders {
-    uninterp spec fn max_height_spec(&self) -> Option<Height>;
-    // the height under which a header with this hash is stored, if any (hash_to_height_and_header)
-    uninterp spec fn height_of_spec(&self, h: BlockHash) -> Option<Height>;
-    // [trusted:assumed-contract] NextBlockHeaders::get_height (BTreeMap get + closure): a lookup
-    #[verifier::external_body]
-    fn get_height(&self, hash: &BlockHash) -> (r: Option<&Height>)
-        ensures r.is_some() == self.height_of_spec(*hash).is_some(), r matches Some(p) ==> Some(*p) == self.height_of_spec(*hash),
-    { unimplemented!() }
-    // [trusted:assumed-contract] NextBlockHeaders::insert (entry-API maps): records the header under the given height
-    #[verifier::external_body]
-    fn insert(&mut self, block_header: Header, height: Height)
-        ensures
-            final(self).announced@ == old(self).announced@.push((block_header, height)), final(self).offered@ == old(self).offered@,
-            // every stored height is an old one or the new one
-            forall|h: BlockHash| (#[trigger] final(self).height_of_spec(h)) matches Some(x) ==> (old(self).height_of_spec(h) == Some(x) || x == height),
-    { unimplemented!() }
-    spec fn heights_below(&self, b: int) -> bool { forall|h: BlockHash| (#[trigger] self.height_of_spec(h)) matches Some(x) ==> x < b }
-    // [trusted:assumed-contract] NextBlockHeaders::get_max_height (BTreeMap last_key_value): opaque value
-    #[verifier::external_body]
-    fn get_max_height(&self) -> (r: Option<Height>)
-        ensures r == self.max_height_spec(),
-    { unimplemented!() }
-}
+// NextBlockHeaders: the REAL struct and methods are verified in fragment nbh.tpl
 
 //@extract file=canister/src/blocktree.rs item="struct CachedBlock"
 //@ rewrite R2? "#\[derive\(([^\]]*)\)\]" => ""
@@ -118,6 +92,7 @@ impl UnstableBlocks {
 //@extract file=canister/src/unstable_blocks.rs in="impl UnstableBlocks" item="fn next_block_headers_max_height" props=C14
 //@ ret r
 //@ spec
+//@| requires self.next_block_headers.wf(),
 //@| ensures r == self.next_block_headers.max_height_spec(),
 //@end
 }
